@@ -28,6 +28,20 @@ DESERR_TRAITS = {
 }
 
 
+def _deserr_trait_name(p):
+    """`value::IntoValue`, `IntoValue`, `deserr::value::IntoValue` (or any other module of the library) -> `IntoValue`"""
+    p = norm_path(p)
+    r = DESERR_TRAITS.get(p)
+    if r is not None:
+        return r
+    segs = p.split("::")
+    if segs[-1] in ("DeserializeError", "MergeWithError", "Deserr", "IntoValue", "Map", "Sequence") and segs[0] in ("deserr", "value") or \
+            (len(segs) > 1 and segs[-1] in ("DeserializeError", "MergeWithError", "Deserr", "IntoValue", "Sequence") and all(s and s[0].islower() for s in segs[:-1])
+             and segs[0] not in ("std", "core", "alloc", "serde_json", "serde", "actix_web", "axum")):
+        return segs[-1]
+    return None
+
+
 class Callee:
     """Classified callee of a Call terminator."""
 
@@ -52,10 +66,10 @@ class Callee:
         if self.fn is None:
             return None
         if self.krate == "deserr" and self.trait is not None:
-            return DESERR_TRAITS.get(norm_path(self.trait))
+            return _deserr_trait_name(self.trait)
         it = self.impl_trait
         if it is not None:
-            t = DESERR_TRAITS.get(norm_path(it))
+            t = _deserr_trait_name(it)
             if t is not None:
                 return t
         return None
